@@ -20,8 +20,8 @@ class C14(Prop):
     MODULE = "AwProofs.Props.C14"
     THEOREMS = ["AwProofs.C14.migration_count_and_members", "AwProofs.C14.migration_ids_distinct", "AwProofs.C14.migration_preserves", "AwProofs.C14.migration_succeeds", "AwProofs.C14.old_unchanged", "AwProofs.C14.trigger_iff"]
     WORKERS = 8
-    LEVEL_TEXT = "Lean 4 theorem over the peewee and sqlite table models: the migration loop creates every legacy bucket with its metadata and inserts exactly its events (as a multiset of instant, duration, data)"
-    LEVEL_NOTE = "trusts: Lean kernel; backend models as validated by the C02/C04 correspondence; file-name trigger modelled as a predicate on the directory listing; legacy file immutability is observed (hash), not modelled"
+    LEVEL_TEXT = 'Lean 4 theorems over the peewee and sqlite table models: migration_succeeds, migration_preserves (every legacy bucket with its metadata, its events as a multiset of instant/duration/data: Perm modulo ids), migration_ids_distinct, trigger_iff (same profile, new file, default path); real legacy databases in private XDG directories are migrated and compared, legacy file bytes hashed'
+    LEVEL_NOTE = 'trusts: Lean kernel + 3 standard axioms; backend models as validated by C02/C04; legacy-file immutability is observed (hash), not modelled'
     TECHNIQUE = "Lean 4 proof over the two store models + differential correspondence on real legacy databases in private XDG dirs"
     RULE = (
         "legacy databases written by the real PeeweeStorage at its default location under a private XDG_DATA_HOME "
